@@ -34,6 +34,7 @@ def floors(tier):
             "counters.rule.missing-template-link": 20, "counters.rule.newline-prepended": 20,
             "counters.rule.if-true": 10, "counters.rule.ifeq-eq": 5, "counters.rule.switch-match": 5,
             "counters.tag.noinclude": 5, "counters.tag.onlyinclude": 5, "counters.tag.includeonly": 5,
+            "counters.tag.comment-with-inclusion-tag": 5,
             "anchors.core.Wtp._template_to_body": 100, "anchors.parserfns.if_fn": 10}
 
 
